@@ -53,6 +53,29 @@ mod sealed {
     fn load_min_segment_size(&self) -> u32 {
       self.min_segment_size
     }
+
+    #[cfg(all(feature = "memmap", not(target_family = "wasm")))]
+    unsafe fn recover_freelist(&self, base: *mut u8, cap: u32) {
+      // a file written by a `sync::Arena` may contain a segment that was marked as removed (size 0)
+      let mut current: &UnsafeCell<u64> = &self.sentinel;
+      loop {
+        let (current_size, next_offset) = decode_segment_node(*current.as_inner_ref());
+        if next_offset == SENTINEL_SEGMENT_NODE_OFFSET
+          || next_offset % SEGMENT_NODE_SIZE as u32 != 0
+          || next_offset as u64 + SEGMENT_NODE_SIZE as u64 > cap as u64
+        {
+          return;
+        }
+
+        let next = unsafe { &*(base.add(next_offset as usize) as *const UnsafeCell<u64>) };
+        let (next_size, next_next_offset) = decode_segment_node(*next.as_inner_ref());
+        if next_size == 0 {
+          *current.as_inner_ref_mut() = encode_segment_node(current_size, next_next_offset);
+          continue;
+        }
+        current = next;
+      }
+    }
   }
 }
 
